@@ -296,6 +296,78 @@ fn check_number(rep: &mut Report, n: u16, caps: &[usize]) {
     watch_leave();
 }
 
+/// 1029: the two counters in front of the text (7-bit number of characters, 8-bit number of UTF-8 code units)
+/// carry the true counts for every admissible text, and the text comes back unchanged
+fn c15_text_1029(rep: &mut Report) {
+    let mut z = vec![0u8; 16];
+    z[0] = (1029u16 >> 4) as u8;
+    z[1] = ((1029u16 & 0xf) << 4) as u8;
+    let base = match catch(|| MessageFrame::new(&make_frame(&z)).map(|fr| fr.get_message())) {
+        Ok(Ok(Message::Msg1029(t))) => t,
+        _ => {
+            rep.violation("C15", "1029:zero-base".into(), "1029 zero payload does not decode to a typed message".into(), 0, json!({"kind":"text_message"}));
+            return;
+        }
+    };
+    let widths = ['a', '\u{e9}', '\u{20ac}', '\u{1f600}'];
+    let mut texts: Vec<String> = vec![String::new()];
+    // n characters of one width; n characters alternating two widths; one wide character at the start / end
+    for n in 1..=127usize {
+        for (i, a) in widths.iter().enumerate() {
+            texts.push(std::iter::repeat(*a).take(n).collect());
+            for b in widths.iter().skip(i + 1) {
+                texts.push((0..n).map(|k| if k % 2 == 0 { *a } else { *b }).collect());
+                let mut t: String = std::iter::repeat(*a).take(n - 1).collect();
+                t.push(*b);
+                texts.push(t.clone());
+                texts.push(format!("{}{}", b, &t[..t.len() - b.len_utf8()]));
+            }
+        }
+    }
+    for s in &texts {
+        if s.len() > 255 {
+            continue;
+        }
+        rep.states += 1;
+        rep.transitions += 2;
+        rep.traces += 1;
+        let nchars = s.chars().count();
+        let desc = || json!({"kind":"text_message","what":format!("1029 text of {} characters / {} bytes", nchars, s.len()),"chars":s.chars().map(|c| c as u32).collect::<Vec<_>>()});
+        let r = catch(|| {
+            let mut t = base.clone();
+            t.text_str = rtcm_rs::util::ArrayString::<255>::from(s.as_str());
+            let m = Message::Msg1029(t);
+            let mut b = MessageBuilder::new();
+            match b.build_message(&m) {
+                Err(e) => Err(format!("{:?}", e)),
+                Ok(f) => {
+                    let f = f.to_vec();
+                    let back = MessageFrame::new(&f).map(|fr| fr.get_message()).unwrap_or(Message::Corrupt);
+                    Ok((f, back == m))
+                }
+            }
+        });
+        match r {
+            Err(p) => rep.violation("C15", format!("1029:panic:{}", p.location), format!("1029 text of {} characters / {} bytes panics: {}", nchars, s.len(), p.message), nchars as u64, desc()),
+            Ok(Err(e)) => rep.violation("C15", "1029:refused".into(), format!("1029 text of {} characters / {} bytes (within 127 / 255) refused with {}", nchars, s.len(), e), nchars as u64, desc()),
+            Ok(Ok((f, same))) => {
+                let payload = &f[3..f.len() - 3];
+                let wc = get_bits(payload, 57, 7) as usize;
+                let wb = get_bits(payload, 64, 8) as usize;
+                if wc != nchars || wb != s.len() {
+                    rep.violation("C15", "1029:wire-counters".into(), format!("1029 text of {} characters / {} bytes: counters on the wire are {} characters / {} code units", nchars, s.len(), wc, wb), nchars as u64, desc());
+                } else if payload.len() < 9 + s.len() || &payload[9..9 + s.len()] != s.as_bytes() || payload.len() > 1023 {
+                    rep.violation("C15", "1029:wire-text".into(), format!("1029 text of {} characters / {} bytes: text bytes on the wire differ or payload of {} bytes", nchars, s.len(), payload.len()), nchars as u64, desc());
+                } else if !same {
+                    rep.violation("C15", "1029:roundtrip".into(), format!("1029 text of {} characters / {} bytes does not decode back to the same message", nchars, s.len()), nchars as u64, desc());
+                } else {
+                    rep.outcome("1029-counters-ok");
+                }
+            }
+        }
+    }
+}
+
 pub fn c15(ctx: &Ctx) -> (Report, Meta) {
     let table = cap_table();
     let feats = feature_numbers();
@@ -313,12 +385,15 @@ pub fn c15(ctx: &Ctx) -> (Report, Meta) {
     for p in parts {
         rep.merge(p);
     }
+    if feats.contains(&1029) {
+        c15_text_1029(&mut rep);
+    }
     rep.distinct_nontrivial = rep.traces;
     rep.sample(json!({"number":1057,"count_field":{"bits":6,"capacity":60},"counts":"0..=63","fills":["zeros","ones","index-coded"],"expect":"<=60: typed, wire count = n, decode(encode)=m, same length; 61..63: Corrupt"}));
     rep.sample(json!({"number":1302,"nested":"all (links 0..=7) x (characters 0..=31)"}));
     let _ = ctx;
     let meta = Meta {
-        rule: "for each list-/string-bearing message (table of 40 numbers / 52 count fields with their capacities; MSM, 1059, 1065, 1230, 1029 are C10/C16/C17): the count field is located from the parse trace; for every value the count field can hold and three element fills (zeros, all-ones, index-coded) the harness-written frame is decoded; count <= capacity must give a typed message that re-encodes (payload <= 1023 bytes, count field on the wire = number of elements) and decodes back to an equal message; count > capacity must give Corrupt with the body present; every truncation of the full-capacity frame must give Corrupt; 1302: all (list length, string length) pairs. states = (message, count field, value, fill); transitions = decode/encode executions".into(),
+        rule: "for each list-/string-bearing message (table of 40 numbers / 52 count fields with their capacities; MSM, 1059, 1065, 1230 are C10/C16; the 1029 text is handled by its two counters, below): the count field is located from the parse trace; for every value the count field can hold and three element fills (zeros, all-ones, index-coded) the harness-written frame is decoded; count <= capacity must give a typed message that re-encodes (payload <= 1023 bytes, count field on the wire = number of elements) and decodes back to an equal message; count > capacity must give Corrupt with the body present; every truncation of the full-capacity frame must give Corrupt; 1302: all (list length, string length) pairs; 1029: texts of 0..=127 characters of every mix of 1-/2-/3-/4-byte characters in a family of patterns: character counter (bits 57..64) = number of characters, code-unit counter (bits 64..72) = number of bytes, text bytes follow, decoding returns the text. states = (message, count field, value, fill); transitions = decode/encode executions".into(),
         exhaustive: true,
         bounds: json!({"counts":"every value of every count field","fills":3,"truncations":"every length of the full-capacity frame"}),
         assumptions: vec!["capacities are those documented in the current tree (31 legacy/residual/FKP/1013, 15 MAC, 60/63/39 SSR, 31 descriptor strings, 7 database links)".into()],
